@@ -8,5 +8,10 @@ ASSUMPTIONS = c01.ASSUMPTIONS
 
 def run(ctx: core.Ctx, only=None) -> core.Result:
     res = c01.run_index(ctx, 'C02', 0.5, only)
+    if only is None:
+        # life-cycle histories (clear() and retrain; a second component started from the live state of the first): the sets of
+        # each component stay those a fresh component would have
+        with core.guarded(res, 'scenario-raised', {'lifecycle': True}):
+            c01.run_lifecycle(ctx, res, ctx.scale(4, 20))
     c01.search(ctx, res, 'C02')
     return res
